@@ -766,7 +766,10 @@ func (ex *Exec) typeAssert(fr *Frame, st *State, x *ssa.TypeAssert) Value {
 	var ok *Term
 	var res Value
 	if isInterface(x.AssertedType) {
-		ok = ts.And(ts.Neq(v, ts.Int(0)), ts.Fresh("implements", SBool))
+		// whether the dynamic type implements the interface is a fact about
+		// the two types (see ifaces.go)
+		ex.noteInterface(x.AssertedType)
+		ok = ts.And(ts.Neq(v, ts.Int(0)), ex.implementsTerm(ex.uf("dyntype", SInt, v), x.AssertedType))
 		res = TV{v}
 	} else {
 		ok = ts.And(ts.Neq(v, ts.Int(0)), ts.Eq(ex.uf("dyntype", SInt, v), ex.typeID(x.AssertedType)))
